@@ -39,7 +39,7 @@ var c12Kinds = []string{
 	"upd:valid", "upd:fewer-parts", "upd:more-parts", "upd:actor-max", "upd:version-max", "upd:other-channel", "upd:unknown-channel", "upd:garbage-sig", "upd:add-suballoc", "upd:final",
 	"upd:locked-drop-all", "upd:locked-drop-first", "upd:locked-swap", "upd:locked-dup", "upd:virtual-id",
 	// a sub-channel proposal whose opening the sender abandons after the acceptance, followed by the funding update it announced
-	"sprop:abandoned-then-funded", "sprop:completed-then-funded-late", "lprop:participant-empty", "vprop:proposer-empty", "pacc:ledger-for-pending-empty-participant",
+	"sprop:abandoned-then-funded", "sprop:completed-then-funded-late", "sprop:completed-then-funded-at-deadline", "lprop:participant-empty", "vprop:proposer-empty", "pacc:ledger-for-pending-empty-participant",
 	// update responses
 	"uacc:unknown-version", "uacc:pending-garbage-sig", "urej:unknown-version", "uacc:unknown-channel", "urej:pending", "uacc:pending-twice",
 	// virtual channel funding / settlement proposals
@@ -98,6 +98,8 @@ func genC12(r *kernel.Rand) *kernel.Scenario {
 			w[i] = 10
 		case "sync:current", "sync:while-locked":
 			w[i] = 5
+		case "sprop:completed-then-funded-at-deadline":
+			w[i] = 4
 		case "lprop:ok", "sprop:ok-shape", "vprop:ok-shape", "vfund:ok-shape", "upd:final", "urej:pending", "uacc:pending-garbage-sig":
 			w[i] = 3
 		}
@@ -112,7 +114,13 @@ func genC12(r *kernel.Rand) *kernel.Scenario {
 	n := r.Range(1, 6)
 	for i := 0; i < n; i++ {
 		k := c12Kinds[r.Weighted(w)]
-		sc.Steps = append(sc.Steps, kernel.St("msg", "kind", k, "from", r.Weighted([]int{3, 1}), "r", int64(r.Uint64()>>2), "gap_us", []int{0, 5, 50, 100, 400, 2000, 200000}[r.Intn(7)]))
+		st := kernel.St("msg", "kind", k, "from", r.Weighted([]int{3, 1}), "r", int64(r.Uint64()>>2), "gap_us", []int{0, 5, 50, 100, 400, 2000, 200000}[r.Intn(7)])
+		if k == "sprop:completed-then-funded-at-deadline" {
+			st.A["from"], st.A["off_us"] = 0, int64(r.Range(-1000, 4000))
+			// what happens between the expiry and the clean-up decides: all yield points on
+			c["yield_pct"], c["long_yields"] = 100, 1
+		}
+		sc.Steps = append(sc.Steps, st)
 	}
 	return sc
 }
@@ -278,7 +286,7 @@ func (a *c12adv) send(step int, st *kernel.Step) bool {
 	if fromZ {
 		from, fromAcc = a.zWire, gen.Pool(6)[5].Addr
 	}
-	if kind == "sprop:abandoned-then-funded" || kind == "sprop:completed-then-funded-late" {
+	if kind == "sprop:abandoned-then-funded" || kind == "sprop:completed-then-funded-late" || kind == "sprop:completed-then-funded-at-deadline" {
 		// The counterparty proposes a sub-channel, lets the victim accept and
 		// never sends its signature on the initial state; after the victim has
 		// given up it sends the parent update that would have funded the
@@ -302,7 +310,7 @@ func (a *c12adv) send(step int, st *kernel.Step) bool {
 			return true // the proposal was refused (e.g. the parent was locked): nothing to follow up
 		}
 		a.abandoned = l[len(l)-1]
-		if kind == "sprop:completed-then-funded-late" {
+		if kind != "sprop:abandoned-then-funded" {
 			// the sender does complete the signature exchange on the initial state
 			// (which follows from the proposal) and only the funding comes too late
 			sp := m1.(*client.SubChannelProposalMsg)
@@ -311,6 +319,20 @@ func (a *c12adv) send(step int, st *kernel.Step) bool {
 			if t.w.Bus.Inject(&wire.Envelope{Sender: from, Recipient: t.H.Wire, Msg: sig}, s.Delay(fmt.Sprintf("inject-sig:%d", step), 0, 100*time.Microsecond)) == nil {
 				s.Count("fault.msg.sprop:initial-sig", 1)
 			}
+		}
+		if kind == "sprop:completed-then-funded-at-deadline" {
+			// the funding reaches the victim around the very instant at which it
+			// gives up waiting for it (st "off_us": -1000..4000 us after that instant)
+			if dl := t.H.LastPropDeadline(); dl > s.Now() {
+				time.Sleep(dl - s.Now() + time.Duration(st.Int("off_us"))*time.Microsecond)
+			}
+			s.Count("fault.funding_at_the_victims_deadline", 1)
+			if m := a.build("sprop:funding-of", r, from, fromAcc, false); m != nil {
+				_ = t.w.Bus.Inject(&wire.Envelope{Sender: from, Recipient: t.H.Wire, Msg: m}, s.Delay(fmt.Sprintf("inject-fund:%d", step), 0, 20*time.Microsecond))
+				s.Count("fault.msg.sprop:funding-of", 1)
+			}
+			time.Sleep(3 * time.Second)
+			return true
 		}
 		time.Sleep(t.H.CtxTimeout + 2*time.Second) // the victim's opening attempt has timed out by now
 		kind = "sprop:funding-of"
